@@ -29,7 +29,7 @@ class IntegerType(NumberType):
         else:
             kwargs['value'] = value
             kwargs['unit'] = unit
-        if isinstance(kwargs['value'], np.ndarray):
+        if isinstance(kwargs['value'], (np.ndarray, np.generic)):   # also a single element cut out of an array
             kwargs['value'] = kwargs['value'].tolist()
         if 'unsigned' in kwargs:
             self.unsigned = kwargs['unsigned']
